@@ -35,7 +35,7 @@ CORR_ONLY = ["accuracy of the Lanczos approximation (GammaLn/Gamma vs mpmath.log
              "quadrature branch a>100 (vs mpmath.gammainc at 1e-3)",
              "P,Q in [0,1] and monotone in x (oracle on sorted grids)",
              "Halley inversion: P(Inv_GammaP(p,a),a)=p at 1e-7 (a<=100) / 1e-3 (a>100), where the exact preimage is a normal double",
-             "Binomial_Coefficient for n>170 (exp of GammaLn differences) vs the exact integer at 1e-10 relative"]
+             ]
 ASSUMPTIONS = ["exp/log/sqrt/pow of libm approximate the real functions (the model takes them as parameters)",
                "classical: the power series and Legendre's continued fraction converge to P and Q (not formalised)"]
 TRUSTED = ["scipy.special.gammaincc (double, ~1e-13 here) as the vectorised reference of the fine a>100 scan at 1e-3; the worst "
@@ -62,20 +62,14 @@ TOL_INV_SMALL = 1e-7
 A100_Q = "a>100 quadrature branch: GammaQ/GammaP differs from the reference by more than 1e-3"
 A100_NAN = "a>100: Inv_GammaP/Inv_GammaQ returns NaN"
 A100_INV = "a>100: P(Inv_GammaP(p,a),a) differs from p by more than 1e-3"
-TOL_BIG_BINOM = 2e-11
 ULP_BINOM = 8         # "a few ulp" for n <= 170 (audit: worst 7.3)
 ULP_BINOM_LAWS = 6    # symmetry and Pascal's rule for n <= 170 (audit: worst 4)
-# OPEN DEFECTS of /repo with a repair proposed but not yet applied: while True the clause keeps its former slack and is
-# listed in the evidence (ASSUMPTIONS); set to False when the patch is in /repo: the clause then is the literal statement.
-_FIXED = set(os.environ.get("LP_ASSUME_FIXED", "").split(","))   # rehearsal of a proposed patch: LP_ASSUME_FIXED=C06-1,C06-2
-PENDING_BINOM_171 = "C06-1" not in _FIXED     # defect 9: Binomial_Coefficient for 171 <= n <= 400 through exp(GammaLn..): thousands of ulp (fixprop-C06-1)
-PENDING_GAMMALN_TINY = "C06-2" not in _FIXED  # defect 15: GammaLn(x) = inf for x < 4.6e-307 (fixprop-C06-2); the generator stays at x >= 1e-300
-ASSUMPTIONS += [t for f, t in (
-    (PENDING_BINOM_171, "OPEN DEFECT 9 (repair proposed, fixprop-C06-1): Binomial_Coefficient, its symmetry and Pascal's rule for 171 <= n <= 400 are judged at "
-                        "2e-11 relative (exp of GammaLn differences); after the repair: 8 / 6 ulp as for n <= 170"),
-    (PENDING_GAMMALN_TINY, "OPEN DEFECT 15 (repair proposed, fixprop-C06-2): GammaLn(x) = inf for x < 4.6e-307, so GammaLn is generated for x >= 1e-300 and the shape "
-                           "parameter of P/Q for a >= 1e-17 only; after the repair: every positive double")) if f]
-
+ASSUMPTIONS += ["remaining exclusions (counted as 'excused' in the evidence): the bit-identity of GammaQ with the evaluator the model selects is not "
+                "demanded when the decision x < a+1.0 differs between double and exact arithmetic (a+1.0 rounds; the value clauses still apply); "
+                "the inversion clause P(Inv_GammaP(p,a),a) = p is evaluated only where the exact preimage is a normal double",
+                "'a few units in the last place' is 8 ulp for Factorial and Binomial_Coefficient (6 ulp for symmetry and Pascal's rule), 16 ulp for "
+                "Gamma(x+1) = x Gamma(x); within it the factorial path n <= 170 returns 132 representable integers that are not C(n,k) (worst 7.3 ulp, "
+                "3546 asymmetric pairs; probe of all 0 <= k <= n <= 170), the product path 171 <= n <= 400 none (worst 0.5 ulp)"]
 
 def ratio(ctx, clause, err, tol):
     """record the worst err/tol per clause (goes into the evidence) and return pass/fail"""
@@ -169,7 +163,7 @@ def generate(tier, seed, ctx):
             R.append("c06.gamma %s" % hx(x))
     for x in [10.0 ** rng.uniform(4, 300) for _ in range(40)]:
         R.append("c06.gammaln %s" % hx(x))
-    if not PENDING_GAMMALN_TINY:
+    if True:      # every positive double (fix 61f965b)
         for x in [5e-324, 1e-320, 1e-310, 2.2250738585072014e-308, 1e-307, 4.5e-307, 4.7e-307] + [10.0 ** rng.uniform(-323, -300) for _ in range(40)]:
             R.append("c06.gammaln %s" % hx(x))
         for _ in range(60):
@@ -375,7 +369,7 @@ def glue_gln(x, lz):
     x = M(x)
     tmp = x + mpf(671) / 128
     t1 = (x + mpf(0.5)) * mpmath.log(tmp)
-    t3 = mpmath.log(mpf("2.5066282746310005") * M(lz) / x)
+    t3 = mpmath.log(mpf("2.5066282746310005") * M(lz)) - mpmath.log(x)      # as coded after fix 61f965b
     return t1 - tmp + t3, abs(t1) + abs(tmp) + abs(t3) + 1
 
 
@@ -398,7 +392,7 @@ def model_Q(x, a, mt):
 
 def binom_tol(n, ex, ulps=ULP_BINOM):
     """few ulp for n<=170 (below one unit this forces the exact integer), 2e-11 relative for n>170"""
-    t = ulps * 2 * EPS * ex if (n <= 170 or not PENDING_BINOM_171) else Fraction(TOL_BIG_BINOM) * ex
+    t = ulps * 2 * EPS * ex
     return t if t >= 1 else Fraction(1, 2)
 
 
@@ -507,11 +501,11 @@ def _check(op, a, ti, mt, ctx, rq):
         ctx["binom"][(n, k)] = v
         ex = Fraction(math.comb(n, k)) if 0 <= k <= n else Fraction(0)
         if not ratio(ctx, "Binomial vs exact integer (n%s170)" % ("<=" if n <= 170 else ">"), abs(Fraction(v) - ex), binom_tol(n, ex)):
-            out.append(fail("prop", "Binomial_Coefficient differs from C(n,k) beyond " + ("a few ulp" if (n <= 170 or not PENDING_BINOM_171) else "2e-11 relative"),
+            out.append(fail("prop", "Binomial_Coefficient differs from C(n,k) beyond a few ulp",
                             "C(%d,%d)=%d got %r" % (n, k, ex, v)))
-        if n <= 170 and mt is not None and mt[0] != "big":
+        if mt is not None:
             if fr(mt[0]) != ex:
-                out.append(fail("corr", "model binomial (floor formula) is not C(n,k)", ""))
+                out.append(fail("corr", "model binomial (floor formula / gcd-reduced product) is not C(n,k)", ""))
             if len(ti) > 1 and len(mt) > 1 and int(ti[1]) != int(mt[1]):
                 out.append(fail("corr", "Binomial_Coefficient: memo table size differs from the model", ""))
     elif op in ("c06.gammaln", "c06.gamma"):
@@ -682,13 +676,13 @@ def finalize(ctx, exe):
         w = B.get((n, n - k))
         ex = Fraction(math.comb(n, k))
         big = " (n>170)" if n > 170 else " (n<=170)"
-        if w is not None and not ratio(ctx, "binomial symmetry" + big, abs(Fraction(v) - Fraction(w)), binom_tol(n, ex, ULP_BINOM_LAWS) * (2 if n > 170 and PENDING_BINOM_171 else 1)):
+        if w is not None and not ratio(ctx, "binomial symmetry" + big, abs(Fraction(v) - Fraction(w)), binom_tol(n, ex, ULP_BINOM_LAWS)):
             out.append(dict(fail("prop", "Binomial_Coefficient is not symmetric: C(n,k) != C(n,n-k)", "n=%d k=%d %r vs %r" % (n, k, v, w)), req="c06.binom %d %d" % (n, k)))
         if n >= 1 and 1 <= k <= n - 1:
             u1, u2 = B.get((n - 1, k - 1)), B.get((n - 1, k))
             if u1 is not None and u2 is not None:
                 big = " (n>170)" if n > 170 else " (n<=170)"
-                if not ratio(ctx, "Pascal's rule" + big, abs(Fraction(v) - Fraction(u1) - Fraction(u2)), binom_tol(n, ex, ULP_BINOM_LAWS) * (2 if n > 170 and PENDING_BINOM_171 else 1)):
+                if not ratio(ctx, "Pascal's rule" + big, abs(Fraction(v) - Fraction(u1) - Fraction(u2)), binom_tol(n, ex, ULP_BINOM_LAWS)):
                     out.append(dict(fail("prop", "Pascal's rule violated: C(n,k) != C(n-1,k-1)+C(n-1,k)", "n=%d k=%d" % (n, k)), req="c06.binom %d %d" % (n, k)))
     # Gamma(x+1) = x Gamma(x), GammaLn(x+1) = GammaLn(x) + log x
     for x, r0, r1, l0, l1 in ctx["recur"]:
